@@ -34,7 +34,42 @@ def obligations(tier):
                 n = life + 1
             obs.append(Ob(f"readings/{spec_name((kind, name, kw))}/lifespan={life}min/n={n}", dict(spec=[kind, name, kw], n=n, life=life, K=K), CFG, fn="run_readings",
                           weight=n * (10 if heavy else 1), budget_s=900 if tier == "quick" else 7200, max_paths=50000))
+    # purely recursive indicators need ONE predecessor: a stream whose density drops after warm-up (10-second candles,
+    # then 1-minute candles under a 1-minute lifespan) leaves fewer than `period` candles in the window
+    recursive = [("EMA", dict(period=3)), ("RMA", dict(period=3)), ("ATR", dict(period=3)), ("RSI", dict(period=3)), ("OBV", dict()), ("VWAP", dict()),
+                 ("KC", dict(period=3)), ("Supertrend", dict(period=3)), ("MACD", dict(fast_period=2, slow_period=3, signal_period=2)), ("TSI", dict(period=2, smooth_period=2)),
+                 ("Counter", dict(input_value="positive"))]
+    for name, kw in recursive:
+        if tier == "quick" and name in ("RSI", "Supertrend"):
+            dense, sparse = 5, 2
+        else:
+            dense, sparse = 6, 3
+        obs.append(Ob(f"readings-density-drop/{spec_name(('ind', name, kw))}/dense={dense}/sparse={sparse}", dict(spec=["ind", name, kw], dense=dense, sparse=sparse), CFG, fn="run_density",
+                      weight=50, budget_s=600 if tier == "quick" else 7200, max_paths=50000))
     return obs
+
+
+def run_density(ctx, P):
+    _, _, Candle, _, _ = lib()
+    spec = tuple(P["spec"][:3])
+    dense, sparse = P["dense"], P["sparse"]
+    n = dense + sparse
+    secs = [10 * (i + 1) for i in range(dense)] + [10 * dense + 60 * (j + 1) for j in range(sparse)]
+    cs = []
+    for i in range(n):
+        o, h, l, c, v = sym_ohlcv(ctx, i)
+        cs.append(Candle(o, h, l, c, v, timestamp=ctx.const_time(GRID0 + secs[i])))
+    runs = []
+    for lifespan in (timedelta(seconds=60), None):
+        ind = build_any(spec, candles=[], candles_lifespan=lifespan)
+        for c in clone(cs):
+            ind.append(c)
+        runs.append(ind)
+    trimmed, twin = runs
+    ctx.observe("trimmed", trimmed.as_list())
+    keep = 2      # newest and its predecessor, 60 s apart
+    if ctx.require("retained-count", len(trimmed.candles) == keep, f"{len(trimmed.candles)} candles retained"):
+        ctx.equal("retained-readings==untrimmed-twin (one predecessor retained)", snap(trimmed.candles), snap(twin.candles[-keep:]))
 
 
 def run_window(ctx, P):
@@ -104,7 +139,7 @@ def run_readings(ctx, P):
 
 
 META = dict(
-    bounds=dict(quick="window clause: N=4 symbolic timestamps, lifespans 60/150/400 s, base / T1 / T5 timeframe, appends one-by-one, in pairs, as one chunk; readings clause: every catalogue indicator and analysis wrapper except ADX and Aroon (thorough only), lifespan = K and K+2 minutes on a 1-minute grid (K = warm-up+2), n = lifespan+3 candles, schedules: singles from empty, window preloaded then singles, window-sized chunk then singles, pairs (only where the precondition holds)",
+    bounds=dict(quick="window clause: N=4 symbolic timestamps, lifespans 60/150/400 s, base / T1 / T5 timeframe, appends one-by-one, in pairs, as one chunk; readings clause: every catalogue indicator and analysis wrapper except ADX and Aroon (thorough only), lifespan = K and K+2 minutes on a 1-minute grid (K = warm-up+2), n = lifespan+3 candles, schedules: singles from empty, window preloaded then singles, window-sized chunk then singles, pairs (only where the precondition holds); plus 11 purely recursive indicators (period 3) over a stream whose density drops so that only the newest candle and its predecessor stay in a 60-second window",
                 thorough="N=5; periods 2 and 3; n+1"),
     stubs=["exact real arithmetic, uninterpreted rounding and products", "datetime -> integer seconds, UTC"],
     assumptions=["K = warm-up index + 2 is at least the look-back any shipped indicator needs (a larger K narrows the claim, never raises an alarm)"],
